@@ -201,10 +201,10 @@ def check_c07(pid, tier, seed, replay):
 # C16
 # ----------------------------------------------------------------------------------------------
 
-VAUTH_CONSTS = ('CONSTANTS\n  Funded = {"s0", "s1", "s2"}\n  Fresh = {"t0", "t1"}\n  Funder = "s0"\n')
+VAUTH_CONSTS = ('CONSTANTS\n  Funded = {"s0", "s1", "s2"}\n  Fresh = {"t0", "t1"}\n  Keyless = {"z0", "zf", "zm", "zp"}\n  Funder = "s0"\n')
 VAUTH_TRACE_CFG = ("SPECIFICATION TraceSpec\n" + VAUTH_CONSTS + "  InitialUnits = {}\nINVARIANT Coverage\nPOSTCONDITION TraceAccepted\nCHECK_DEADLOCK FALSE\n")
 VAUTH_WITNESSES = ["W_SubmitOk", "W_SubmitFailed", "W_SubmitPoor", "W_CreateFailed", "W_Vesting1", "W_Vesting23", "W_Exhausted"]
-VAUTH_SIZES = {"quick": dict(sim_num=14, per_family=10, depth=8), "thorough": dict(sim_num=260, per_family=24, depth=10)}
+VAUTH_SIZES = {"quick": dict(sim_num=14, per_family=10, depth=8), "thorough": dict(sim_num=200, per_family=24, depth=10)}
 BEH_RE = re.compile(r'"BEHAVIOUR\|(\[.*\])"')
 
 
@@ -225,6 +225,13 @@ def vauth_design(v, w, tier):
         raise Infra("design model Vauth_mc violates one of its own laws (specification bug):\n" + r["out"][-3000:])
     v.add_mc(r)
     if tier == "thorough":
+        # the complete operation alphabet (the quick run uses the core alphabet + one representative of the classes that
+        # differ only in bytes the model does not look at)
+        rf = vlib.tlc(d, "Vauth_mc", "Vauth_mc_full.cfg", workers=8, timeout=6000)
+        if rf["violated"]:
+            raise Infra("design model Vauth_mc (full alphabet) violates one of its own laws:\n" + rf["out"][-3000:])
+        v.add_mc(rf)
+        log("design run Vauth_mc/full alphabet: %d distinct states, %d transitions, all laws hold" % (rf["distinct"], rf["generated"]))
         rt = vlib.tlc(d, "Vauth_mc", "Vauth_mc_thorough.cfg", workers=8, timeout=6000)
         if rt["violated"]:
             raise Infra("design model Vauth_mc (thorough constants) violates one of its own laws:\n" + rt["out"][-3000:])
@@ -357,7 +364,8 @@ def check_c16(pid, tier, seed, replay):
                                   "law %s broken at step %d of this behaviour (%d occurrence(s) in the run, seed %d); behaviours.ndjson = the operations, "
                                   "trace.ndjson = what the real application did; re-run against the current tree: bin/check %s --replay <this dir>"
                                   % (sig, lns[0] - a - 1, len(lns), seed, pid))
-            v.violation(sig, rp, "%d step(s), first: %s" % (len(lns), lines[lns[0] - 1][:700]))
+            kinds = sorted({str(json.loads(lines[x - 1])["op"].get("sig") or json.loads(lines[x - 1])["op"].get("route")) for x in lns})
+            v.violation(sig, rp, "%d step(s), signature kinds / routes involved: %s; first: %s" % (len(lns), ",".join(kinds)[:300], lines[lns[0] - 1][:700]))
         v.cov["traces_validated_against_impl"] = len(allb) - len(bad_behaviours)
         v.cov["evaluations"] = nops
         v.cov["classes"] = cov
@@ -367,8 +375,8 @@ def check_c16(pid, tier, seed, replay):
         v.cov["distinct_nontrivial"] = sum(n for k, n in cov.items() if k.split(".", 2)[2].split(":")[0] in state_dep)
         v.cov["distinct_classes"] = len(cov)
         v.cov["rule"] = ("behaviours of Vauth.tla executed against the real application, one real transaction per operation: B1 = every "
-                         "operation of the alphabet (3 submitters x 5 targets x (12 signature kinds + 6 over-long account forms); 3 vesting kinds x 5 targets x 25 routes incl. 18 sibling routes) after "
-                         "each of 5 prefixes; B2 = TLC -simulate behaviours; distinct_nontrivial = operations executed on the real "
+                         "operation of the alphabet (3 submitters x 5 keyed targets x (23 signature kinds + 6 over-long account forms), 3 submitters x 4 keyless targets (zero address, 0xff..ff, module account, precompile) x 20 forged kinds; 3 vesting kinds x 5 targets x 25 routes incl. 18 sibling routes) after "
+                         "each of 5 prefixes (the keyless / degenerate-signature classes from the initial state only); B2 = TLC -simulate behaviours; distinct_nontrivial = operations executed on the real "
                          "application whose admitted outcome depends on the state built by earlier operations of the behaviour (already proven, "
                          "submitter exhausted, proven target, account exists, proof in the same tx), counted by TraceVauth per class")
         v.cov["exhaustive"] = False
